@@ -27,6 +27,45 @@ type Case struct {
 	Origin   string `json:"origin,omitempty"`
 	// a replayed / corpus case may pin one query text instead of generating them
 	Query string `json:"query,omitempty"`
+	// Clash: let different fields share an alias (what detectConflicts misses below the top level)
+	Clash bool `json:"clash,omitempty"`
+}
+
+// aliasClash reports whether some alias names two different fields anywhere in the document.
+func aliasClash(doc *ast.Document) bool {
+	names := map[string]string{}
+	clash := false
+	var walk func(ss *ast.SelectionSet)
+	walk = func(ss *ast.SelectionSet) {
+		if ss == nil {
+			return
+		}
+		for _, sel := range ss.Selections {
+			switch sel := sel.(type) {
+			case *ast.Field:
+				a := sel.Name.Value
+				if sel.Alias != nil {
+					a = sel.Alias.Value
+				}
+				if n, ok := names[a]; ok && n != sel.Name.Value {
+					clash = true
+				}
+				names[a] = sel.Name.Value
+				walk(sel.SelectionSet)
+			case *ast.InlineFragment:
+				walk(sel.SelectionSet)
+			}
+		}
+	}
+	for _, d := range doc.Definitions {
+		switch d := d.(type) {
+		case *ast.OperationDefinition:
+			walk(d.SelectionSet)
+		case *ast.FragmentDefinition:
+			walk(d.SelectionSet)
+		}
+	}
+	return clash
 }
 
 type F = gqlty.Finding
@@ -90,7 +129,7 @@ func runCase(c *Case) ([]F, map[string]interface{}) {
 	}
 	for k := 0; k < nq; k++ {
 		qr := r.Fork()
-		gen := &gqlty.QGen{R: qr, D: desc, ArgSamples: g.ArgSamples, PAlias: 12, PFrag: 15, PInline: 12, PTypename: 10}
+		gen := &gqlty.QGen{R: qr, D: desc, ArgSamples: g.ArgSamples, PAlias: 12, ClashAliases: c.Clash, AliasPool: []string{"al1", "al2"}, PFrag: 15, PInline: 12, PTypename: 10}
 		if qr.Chance(35) {
 			gen.WantIll = qr.Pick(gqlty.IllKinds)
 		}
@@ -154,8 +193,13 @@ func runCase(c *Case) ([]F, map[string]interface{}) {
 			fs = append(fs, F{"execute-panic", firstLine(p) + " :: " + text})
 			continue
 		}
+		clash := aliasClash(doc)
 		if xerr != nil {
-			fs = append(fs, F{"validated-query-errors", firstLine(xerr.Error()) + " :: " + text})
+			sig := "validated-query-errors"
+			if clash {
+				sig = "alias-shared-by-different-fields:validated-query-errors"
+			}
+			fs = append(fs, F{sig, firstLine(xerr.Error()) + " :: " + text})
 			continue
 		}
 		// the response as a client sees it
@@ -187,7 +231,11 @@ func runCase(c *Case) ([]F, map[string]interface{}) {
 		for _, v := range cf.Out {
 			if !seen[v.Class] {
 				seen[v.Class] = true
-				fs = append(fs, F{"response-does-not-conform:" + v.Class, v.Path + ": " + v.Msg + " :: " + text})
+				sig := "response-does-not-conform:" + v.Class
+				if clash {
+					sig = "alias-shared-by-different-fields:response-does-not-conform"
+				}
+				fs = append(fs, F{sig, v.Path + ": " + v.Msg + " :: " + text})
 			}
 		}
 		obs["executed"] = true
